@@ -143,3 +143,11 @@ Proof.
   - intro E. subst. rewrite Ascii.eqb_refl in H2. discriminate.
   - apply Ascii.eqb_neq. exact H2.
 Qed.
+
+(* match_bitpattern raises exactly when the stripped pattern and the wire differ in length *)
+Theorem match_bits_ok : forall w ns, match_bits w ns <> None <-> length w = length ns.
+Proof.
+  intros w ns. unfold match_bits. destruct (Nat.eqb (length w) (length ns)) eqn:E; cbn [negb].
+  - apply Nat.eqb_eq in E. split; [intros _; exact E|discriminate].
+  - apply Nat.eqb_neq in E. split; [congruence|intros H; contradiction].
+Qed.
